@@ -253,6 +253,26 @@ def run(ctx, env):
                            else "loop-carried %s is extended in place" % short_ty(ty), site=site(sp))
     ctx.count("accumulators_inspected", nacc)
     # R15.7 allocations on the decode path come from the input, not from the cached template
+    ctx.rule("R15.8", "the number of V9 records decoded from a data flowset is bounded by its bytes: record_count = input.len() / (sum of field_length over the fields of the very template the records are decoded with), computed from that template at the time of the decode (not a remembered size that a redefinition leaves stale), and the loop runs 0..record_count (shared with C04 R4.4)")
+    from . import c04 as _c04
+    saved8, saved_rules8, saved_an8, saved_notes8 = ctx.obls, dict(ctx.rule_text), dict(ctx.analysed), list(ctx.notes)
+    ctx.obls = []
+    try:
+        _c04.run(ctx, env)
+    finally:
+        sub8 = ctx.obls
+        ctx.obls = saved8
+        ctx.rule_text.clear()
+        ctx.rule_text.update(saved_rules8)
+        ctx.analysed.clear()
+        ctx.analysed.update(saved_an8)
+        ctx.notes[:] = saved_notes8
+    n8 = 0
+    for o in sub8:
+        if o["rule"] == "R4.4" and o["detail"] in ("loop-is-0..record_count", "record-count-form", "record-count=len/total_size", "total=Σ field_length over all fields", "anchor"):
+            n8 += 1
+            ctx.ob("R15.8", o["func"], o["detail"], o["status"] == "discharged", o["reason"], o["site"])
+    ctx.floor("R15.8", "v9", "record-count obligations", n8, 3)
     ctx.rule("R15.7", "on the decode path nothing is allocated in proportion to the cached template alone: every collect / to_vec / clone / with_capacity in a hand-written parser under variable_versions takes its size from the input bytes (or a constant) - a per-flowset table built from the template's field list costs (number of flowsets) x (template width) for a buffer of minimal flowsets that decode to nothing")
     from . import consume as _cons7
     TEMPLATE_TY = re.compile(r"\b(Template|OptionsTemplate|TemplateField|OptionsTemplateScopeField|V9Parser|IPFixParser)\b")
